@@ -682,3 +682,22 @@ def _(vm, a, ci):
             cur = str_concat(vm, cur, x if isinstance(x, (SymStr, BStr)) else const_str(vm, chr(x)))
         vm.ref_set(a[0], cur); return UNIT
     raise Unmodelled(f'extend on {tgt!r}')
+
+
+@trait(('Itertools', 'sorted_by_key'), ('Itertools', 'sorted_unstable_by_key'), ('Itertools', 'sorted_by_cached_key'))
+def _(vm, a, ci):
+    from .std import values_cmp
+    from .std_coll import stable_sort
+    items = drain(vm, a[0])
+    keyed = [(vm.call_value(a[1], [Ref(Cell(x))]), x) for x in items]
+    kt = ci.fnargs[0] if ci.fnargs else ''
+    out = stable_sort(vm, keyed, lambda p, q: values_cmp(vm, kt, p[0], q[0], False))
+    return It('list', [x for _, x in out], 0)
+
+
+@trait(('Itertools', 'sorted_by'), ('Itertools', 'sorted_unstable_by'))
+def _(vm, a, ci):
+    from .std_coll import stable_sort
+    items = drain(vm, a[0])
+    out = stable_sort(vm, items, lambda p, q: conc(vm, vm.call_value(a[1], [Ref(Cell(p)), Ref(Cell(q))])).variant - 1)
+    return It('list', out, 0)
